@@ -571,6 +571,13 @@ def c17_rows(lrus):
                     continue
                 ix = impl.Index("memory", rule, [])
                 try:
+                    if i % 3 == 0:
+                        # whatever happened before: here an unrelated site, then an explicit creation that is
+                        # REFUSED because one of its prefixes (the unrelated site) is taken - it names a free
+                        # variation of this site
+                        other = b"s:http|h:org|h:elsewhere|"
+                        impl.apply_op(ix, {"op": "AddPage", "l": other + b"p:x|", "cr": False})
+                        impl.apply_op(ix, {"op": "CreateWe", "ps": [vs[(vs.index(v) + 1) % len(vs)], other]})
                     res = impl.apply_op(ix, {"op": "AddPage", "l": page, "cr": False})
                     pre = [p for c in res["created"] for p in c["prefixes"]]
                     row["created"].append({"m": v, "prefixes": pre, "exc": res["exc"]})
@@ -661,12 +668,12 @@ def check_c18(pid, cfg, tier, seed, work, t0):
     mcs = [run_mc("crash", work, level=(4, 5)[ti])]
     if not mcs[0]["ok"]:
         raise Machinery("TLC reports an error in MC_crash:\n" + mcs[0].get("tail", ""))
-    nh, steps = ((10, 7), (80, 10))[ti]
+    nh, steps = ((28, 9), (120, 11))[ti]
     prof = dict(BASE_PROFILE)
     # multi-block stems only, exact multiples of the block payload prominent: the shapes torn writes depend on
     prof.update({"nlrus": 8, "long": 0.8, "raw": 0.1, "lens": [75, 148, 149, 222, 222, 223, 296, 297],
                  "weights": {"Reopen": 0, "Clear": 0, "Paginate": 0, "PagLinks": 0, "AddLinks": 20,
-                             "IndexBatchCrawl": 14, "AddRule": 6, "CreateWe": 8}})
+                             "IndexBatchCrawl": 14, "AddRule": 8, "RemoveRule": 6, "CreateWe": 8}})
     hists, rows = [], []
     next_id = [0]
     for h in range(nh):
